@@ -93,7 +93,7 @@ static Cfg cfg_parse(const std::string& str)
 static float alpha_of(const Cfg& c) { return c.al ? 0.5F : 1.F; }
 static float gamma_of(const Cfg& c) { return c.ga == 0 ? 0.F : c.ga == 1 ? 0.1F : 1.F; }
 static double ubound_of(const Cfg& c) { return c.ub ? 2.5 : (double)std::numeric_limits<float>::max(); }
-static const char* prior_name(int p) { return p == 0 ? "none" : p == 3 ? "RDP" : p == 4 ? "quadratic_kappa" : p == 5 ? "quadratic_recompute" : "quadratic"; }
+static const char* prior_name(int p) { return p == 0 ? "none" : p == 3 ? "RDP" : p == 4 ? "quadratic_kappa" : p == 6 ? "quadratic_kappa_with_zeros" : p == 5 ? "quadratic_recompute" : "quadratic"; }
 // what a maintainer needs to tell defects apart
 static std::string cfg_class(const Cfg& c)
 {
@@ -584,7 +584,7 @@ int main(int argc, char** argv)
     run_cfg(ctx, c);
     return true;
   };
-  static const int PRIORS[5] = { 0, 1, 2, 4, 5 };
+  static const int PRIORS[6] = { 0, 1, 2, 4, 5, 6 };
   for (int g = 0; g < ngeom; ++g)
     {
       const int V = GEOMS[g].D / 2;
@@ -596,7 +596,7 @@ int main(int argc, char** argv)
           { Cfg c; c.g = g; c.N = N; c.prior = 3; if (!visit(c)) return ctx.finish(); }
           for (int add = 0; add < 2; ++add)
             for (int norm = 0; norm < 2; ++norm)
-              for (int pi = 0; pi < 5; ++pi)
+              for (int pi = 0; pi < 6; ++pi)
                 for (int data = 0; data < (th && g < 4 ? 3 : 2); ++data)
                   for (int start = (g >= 4 ? 1 : 0); start < 3; ++start) // the two largest geometries (thorough only): labelled start image and image with zeros, data 0/1
                     {
